@@ -26,6 +26,23 @@ type Network struct {
 	minimumSpeed   float64 // The minimum speed traveled on any link in the network.
 }
 
+// weighted adapts Network to gonum's graph.Weighted interface. path.AStar
+// only uses edge costs of graphs that implement it (Network.Weight takes an
+// edge, which is a different method), and otherwise counts every link as 1.
+type weighted struct{ Network }
+
+// Weight returns the cost of the link between nodes xid and yid.
+func (w weighted) Weight(xid, yid int64) (float64, bool) {
+	if xid == yid {
+		return 0, true
+	}
+	e, ok := w.neighbors[xid][yid]
+	if !ok {
+		return math.Inf(1), false
+	}
+	return w.Network.Weight(e), true
+}
+
 // NewNetwork initializes a new Network where m determines how to choose
 // the shortest route (either by Distance or Time).
 func NewNetwork(m MinimizeOption) *Network {
@@ -260,7 +277,7 @@ func (net Network) ShortestRoute(from, to geom.Point) (
 	endNode := net.nodes.NearestNeighbor(to).(*node)
 	startDistance = op.Distance(from, startNode.Point)
 	endDistance = op.Distance(to, endNode.Point)
-	shortest, _ := path.AStar(startNode, endNode, net, net.costHeuristic)
+	shortest, _ := path.AStar(startNode, endNode, weighted{net}, net.costHeuristic)
 	nodes, _ := shortest.To(endNode.ID())
 	for i := 0; i < len(nodes)-1; i++ {
 		e, ok := net.neighbors[nodes[i].ID()][nodes[i+1].ID()]
